@@ -1346,6 +1346,7 @@ public:
       k = 0;
       previousNumFree = numFree;
       numFree = 0;             // start list of rows still free after augmenting row reduction.
+      size_t nbReprocessed = 0; // rows put back for immediate reprocessing (bounded, see below)
       while (k < previousNumFree)
       {
         i = free[k];
@@ -1376,11 +1377,18 @@ public:
         }
 
         i0 = colSol[j1];
-        if (uMin < uSubMin)
+        // With real costs the reduction below must strictly lower v[j1]: if rounding absorbs
+        // (uSubMin - uMin) the same rows would be reprocessed for ever. The number of immediate
+        // reprocessings is bounded as well; a row that is not reprocessed is left to the augmentation phase.
+        Scalar vNew = v[j1] - (uSubMin - uMin);
+        bool lowers = (uMin < uSubMin) && (vNew < v[j1]);
+        bool reprocess = lowers && (nbReprocessed < dim * dim);
+        if (lowers)
         {
           // change the reduction of the minimum column to increase the minimum
           // reduced cost in the row to the subminimum.
-          v[j1] = v[j1] - (uSubMin - uMin);
+          if (reprocess)
+            v[j1] = vNew;
         }
         else                    // minimum and subminimum equal.
         {
@@ -1398,11 +1406,12 @@ public:
 
         if (i0 >= 0)            // minimum column j1 assigned earlier.
         {
-          if (uMin < uSubMin)
+          if (reprocess)
           {
             // put in current k, and go back to that k.
             // continue augmenting path i - j1 with i0.
             free[--k] = static_cast<size_t>(i0);
+            nbReprocessed++;
           }
           else
           {
